@@ -121,6 +121,20 @@ Proof.
   - exact (IH l2 x Hd H1 H2).
 Qed.
 
+Lemma NoDup_app_l : forall (A : Type) (l1 l2 : list A), NoDup (l1 ++ l2) -> NoDup l1.
+Proof.
+  induction l1 as [|y l1 IH]; simpl; intros l2 H; [constructor|].
+  inversion H as [|? ? Hn Hd]; subst. constructor.
+  - intros Hy. apply Hn. apply in_or_app. auto.
+  - exact (IH l2 Hd).
+Qed.
+
+Lemma NoDup_app_r : forall (A : Type) (l1 l2 : list A), NoDup (l1 ++ l2) -> NoDup l2.
+Proof.
+  induction l1 as [|y l1 IH]; simpl; intros l2 H; [exact H|].
+  inversion H; subst. auto.
+Qed.
+
 (* the bookkeeping of a concurrent node when child [i] completes *)
 Lemma ccd_spec : forall k ns i o ns' nw fin,
   conc_child_done k ns i o = (ns', nw, fin) ->
@@ -211,7 +225,7 @@ Ltac step :=
   | |- rem_ok _ _ ?t => let x := head_scrut t in step_on x
   end.
 
-Ltac finish_good := simpl; rw_flags; simpl; repeat split; auto.
+Ltac finish_good := unfold good; repeat (progress (simpl; rw_flags)); simpl; repeat split; auto.
 
 (* ------------------------------------------------------------------------------------------------ *)
 (* start / stop / leafev keep the state well formed, and a completion leaves OFin                   *)
@@ -270,4 +284,369 @@ Proof.
           repeat step; finish_good.
 Qed.
 
+(* no lost completion, state level: a started operation that has not completed has a running leaf *)
+Lemma no_lost : forall e st, wf e st -> running_leaves e st <> [].
+Proof.
+  induction e as [v|x| |n|id|id|k s IHs|k a IHa b IHb]; intros st H; simpl in H; try contradiction.
+  - destruct st as [|[|] sn|]; simpl in *; try contradiction. discriminate.
+  - destruct st as [|[|] [|]|]; simpl in *; try contradiction. discriminate.
+  - destruct st as [| |ns sc sx]; try contradiction. destruct sx; try contradiction.
+    simpl. auto.
+  - destruct st as [| |ns sa sb]; try contradiction. simpl. intros E.
+    apply app_eq_nil in E. destruct E as (Ea & Eb).
+    destruct (is_seq k).
+    + destruct (ph ns); try contradiction; destruct H as (Ha & Hb).
+      * exact (IHa _ Ha Ea).
+      * exact (IHb _ Hb Eb).
+    + destruct H as (_ & Ha & Hb & Hab).
+      destruct (adone ns).
+      * destruct (bdone ns); [discriminate|]. exact (IHb _ Hb Eb).
+      * exact (IHa _ Ha Ea).
+Qed.
+
+Lemma good_spec : forall e st tr r, good e (st, tr, r) ->
+  (r = None -> wf e st /\ running_leaves e st <> []) /\ (r <> None -> st = OFin).
+Proof.
+  intros e st tr [o|] H; simpl in H; split; intros H1; try discriminate; try congruence.
+  split; [exact H|exact (no_lost e st H)].
+Qed.
+
+Theorem start_spec : forall e en st tr r, start e en = (st, tr, r) ->
+  (r = None -> wf e st /\ running_leaves e st <> []) /\ (r <> None -> st = OFin).
+Proof.
+  intros e en st tr r H. apply good_spec with (tr := tr). rewrite <- H. apply spec_all.
+Qed.
+
+Theorem stop_spec : forall e st0 st tr r, wf e st0 -> stop e st0 = (st, tr, r) ->
+  (r = None -> wf e st /\ running_leaves e st <> []) /\ (r <> None -> st = OFin).
+Proof.
+  intros e st0 st tr r Hw H. apply good_spec with (tr := tr). rewrite <- H. apply spec_all; exact Hw.
+Qed.
+
+Theorem leafev_spec : forall e st0 id o st tr r hit, wf e st0 -> leafev e st0 id o = ((st, tr, r), hit) ->
+  (r = None -> wf e st /\ running_leaves e st <> []) /\ (r <> None -> st = OFin).
+Proof.
+  intros e st0 id o st tr r hit Hw H. apply good_spec with (tr := tr).
+  change (st, tr, r) with (fst ((st, tr, r), hit)). rewrite <- H. apply spec_all; exact Hw.
+Qed.
+
+(* ------------------------------------------------------------------------------------------------ *)
+(* which leaf events apply                                                                          *)
+(* ------------------------------------------------------------------------------------------------ *)
+
+Lemma rl_in_ids : forall e st x, In x (running_leaves e st) -> In x (leaf_ids e).
+Proof. intros e st x H. exact (rl_incl e st x H). Qed.
+
+Ltac finish_hit :=
+  unfold hit_ok in *; simpl in *; rewrite ?rl_fin in *; rewrite ?in_app_iff; simpl;
+  intuition (try discriminate; try congruence).
+
+Lemma hit_iff : forall e st id o, wf e st -> hit_ok e st id (leafev e st id o).
+Proof.
+  induction e as [v|x| |n|id|id|k s IHs|k a IHa b IHb]; intros st id0 o H; simpl in H; try contradiction.
+  - destruct st as [|[|] sn|]; simpl in *; try contradiction.
+    unfold hit_ok. destruct (Nat.eqb id0 id) eqn:E; simpl.
+    + apply Nat.eqb_eq in E. subst. intuition.
+    + apply Nat.eqb_neq in E. split; [discriminate|]. intros [->|[]]. congruence.
+  - destruct st as [|[|] [|]|]; simpl in *; try contradiction.
+    unfold hit_ok. destruct (Nat.eqb id0 id) eqn:E; simpl.
+    + apply Nat.eqb_eq in E. subst. intuition.
+    + apply Nat.eqb_neq in E. split; [discriminate|]. intros [->|[]]. congruence.
+  - destruct st as [| |ns sc sx]; try contradiction. destruct sx; try contradiction.
+    pose proof (IHs sc id0 o H) as Fs.
+    repeat step; finish_hit.
+  - destruct st as [| |ns sa sb]; try contradiction.
+    destruct (is_seq k) eqn:Hk.
+    + destruct (ph ns) eqn:P0; try contradiction; destruct H as (Ha & Hb); subst.
+      * pose proof (IHa sa id0 o Ha) as Fa. repeat step; finish_hit.
+      * pose proof (IHb sb id0 o Hb) as Fb. repeat step; finish_hit.
+    + destruct H as (P0 & Ha & Hb & Hab).
+      destruct (adone ns) eqn:A0; destruct (bdone ns) eqn:B0; simpl in Hab; try discriminate; subst.
+      * pose proof (IHb sb id0 o Hb) as Fb. repeat step; finish_hit.
+      * pose proof (IHa sa id0 o Ha) as Fa. repeat step; finish_hit.
+      * pose proof (IHa sa id0 o Ha) as Fa. pose proof (IHb sb id0 o Hb) as Fb.
+        repeat step; finish_hit.
+Qed.
+
+Ltac use_hits :=
+  repeat match goal with
+         | F : true = true <-> In ?id ?l |- _ => assert (In id l) by (apply F; reflexivity); clear F
+         | F : false = true <-> _ |- _ => clear F
+         | R : true = true -> ~ In ?id ?l |- _ => assert (~ In id l) by (apply R; reflexivity); clear R
+         | R : false = true -> _ |- _ => clear R
+         end.
+
+Ltac finish_rem ND :=
+  unfold hit_ok, rem_ok in *; simpl in *;
+  let Hin := fresh "Hin" in
+  intros ? Hin; try discriminate; subst; use_hits; try solve [intuition];
+  rewrite ?rl_fin in Hin; simpl in Hin; try contradiction;
+  try (apply in_app_or in Hin; destruct Hin as [Hin|Hin]; rewrite ?rl_fin in Hin; simpl in Hin);
+  try contradiction;
+  (exfalso; eapply NoDup_app_disj; [exact ND|eapply rl_in_ids; eassumption|eapply rl_in_ids; eassumption]).
+
+Lemma hit_removes : forall e st id o, NoDup (leaf_ids e) -> wf e st -> rem_ok e id (leafev e st id o).
+Proof.
+  induction e as [v|x| |n|id|id|k s IHs|k a IHa b IHb]; intros st id0 o ND H; simpl in H; try contradiction.
+  - destruct st as [|[|] sn|]; simpl in *; try contradiction.
+    unfold rem_ok. destruct (Nat.eqb id0 id); simpl; auto; discriminate.
+  - destruct st as [|[|] [|]|]; simpl in *; try contradiction.
+    unfold rem_ok. destruct (Nat.eqb id0 id); simpl; auto; discriminate.
+  - destruct st as [| |ns sc sx]; try contradiction. destruct sx; try contradiction.
+    simpl in ND. pose proof (IHs sc id0 o ND H) as Rs.
+    repeat step; finish_rem ND.
+  - destruct st as [| |ns sa sb]; try contradiction.
+    simpl in ND.
+    pose proof (NoDup_app_r _ _ _ ND) as NDb. pose proof (NoDup_app_l _ _ _ ND) as NDa.
+    destruct (is_seq k) eqn:Hk.
+    + destruct (ph ns) eqn:P0; try contradiction; destruct H as (Ha & Hb); subst.
+      * pose proof (hit_iff a sa id0 o Ha) as Fa. pose proof (IHa sa id0 o NDa Ha) as Ra.
+        repeat step; finish_rem ND.
+      * pose proof (hit_iff b sb id0 o Hb) as Fb. pose proof (IHb sb id0 o NDb Hb) as Rb.
+        repeat step; finish_rem ND.
+    + destruct H as (P0 & Ha & Hb & Hab).
+      destruct (adone ns) eqn:A0; destruct (bdone ns) eqn:B0; simpl in Hab; try discriminate; subst.
+      * pose proof (hit_iff b sb id0 o Hb) as Fb. pose proof (IHb sb id0 o NDb Hb) as Rb.
+        repeat step; finish_rem ND.
+      * pose proof (hit_iff a sa id0 o Ha) as Fa. pose proof (IHa sa id0 o NDa Ha) as Ra.
+        repeat step; finish_rem ND.
+      * pose proof (hit_iff a sa id0 o Ha) as Fa. pose proof (IHa sa id0 o NDa Ha) as Ra.
+        pose proof (hit_iff b sb id0 o Hb) as Fb. pose proof (IHb sb id0 o NDb Hb) as Rb.
+        repeat step; finish_rem ND.
+Qed.
+
 Transparent conc_child_done un_result after_first after_second is_seq.
+
+Theorem leafev_hit : forall e st id o, wf e st ->
+  (snd (leafev e st id o) = true <-> In id (running_leaves e st)).
+Proof. exact hit_iff. Qed.
+
+Theorem leafev_hit_removes : forall e st id o st' tr r,
+  NoDup (leaf_ids e) -> wf e st -> leafev e st id o = ((st', tr, r), true) ->
+  ~ In id (running_leaves e st').
+Proof.
+  intros e st id o st' tr r ND H E. pose proof (hit_removes e st id o ND H) as R.
+  unfold rem_ok in R. rewrite E in R. simpl in R. auto.
+Qed.
+
+(* "a hit removes EXACTLY id" is false: the completion of one leaf may cancel stop-reactive leaves.
+   when_all(stop_when(Leaf 1, LeafN 2), Leaf 3): completing leaf 1 also ends leaf 2. *)
+Example hit_may_cancel_others :
+  let e := Bin BWhenAll (Bin BStopWhen (Leaf 1) (LeafN 2)) (Leaf 3) in
+  let st := fst (fst (start e (root_env false))) in
+  running_leaves e st = [1; 2; 3]%nat /\
+  running_leaves e (fst (fst (fst (leafev e st 1%nat (OVal 0%Z))))) = [3]%nat.
+Proof. vm_compute. split; reflexivity. Qed.
+
+(* ------------------------------------------------------------------------------------------------ *)
+(* Whole runs                                                                                       *)
+(* ------------------------------------------------------------------------------------------------ *)
+
+Definition is_xroot (x : xev) : bool := match x with XRoot _ _ => true | _ => false end.
+Definition count_roots (tr : list xev) : nat := length (filter is_xroot tr).
+
+Lemma filter_app_ : forall (A : Type) (f : A -> bool) (l1 l2 : list A),
+  filter f (l1 ++ l2) = filter f l1 ++ filter f l2.
+Proof.
+  induction l1 as [|x l1 IH]; simpl; intros l2; [reflexivity|].
+  rewrite IH. destruct (f x); reflexivity.
+Qed.
+
+Lemma count_roots_app : forall l1 l2, count_roots (l1 ++ l2) = (count_roots l1 + count_roots l2)%nat.
+Proof. intros. unfold count_roots. rewrite filter_app_, app_length. reflexivity. Qed.
+
+Lemma count_roots_XT : forall tr, count_roots (map XT tr) = 0%nat.
+Proof. induction tr as [|t tr IH]; simpl; auto. Qed.
+
+(* the run-level invariant *)
+Definition RInv (e : sexpr) (rs : run_state) : Prop :=
+  (r_roots rs = 0%nat /\ wf e (r_st rs)) \/ (r_roots rs = 1%nat /\ r_st rs = OFin).
+Definition TInv (rs : run_state) : Prop := count_roots (r_tr rs) = r_roots rs.
+
+Lemma absorb_RInv : forall e rs r, r_roots rs = 0%nat -> good e r -> RInv e (absorb rs r).
+Proof.
+  intros e rs [[st tr] [o|]] H0 G; simpl in G; unfold RInv, absorb; simpl.
+  - right. rewrite H0. auto.
+  - left. auto.
+Qed.
+
+Lemma absorb_TInv : forall rs r, TInv rs -> TInv (absorb rs r).
+Proof.
+  intros rs [[st tr] [o|]] H; unfold TInv, absorb in *; simpl.
+  - rewrite !count_roots_app, count_roots_XT, H. unfold count_roots. simpl. lia.
+  - rewrite count_roots_app, count_roots_XT, H. lia.
+Qed.
+
+Lemma absorb_tr : forall rs r, exists suf, r_tr (absorb rs r) = r_tr rs ++ suf.
+Proof.
+  intros rs [[st tr] [o|]]; unfold absorb; simpl.
+  - rewrite <- app_assoc. eexists; reflexivity.
+  - eexists; reflexivity.
+Qed.
+
+Lemma run_start_RInv : forall e pre, RInv e (run_start e pre).
+Proof. intros. unfold run_start. apply absorb_RInv; [reflexivity|apply spec_all]. Qed.
+
+Lemma run_start_TInv : forall e pre, TInv (run_start e pre).
+Proof. intros. unfold run_start. apply absorb_TInv. reflexivity. Qed.
+
+(* after the root completed nothing happens any more *)
+Lemma run_ev_fin : forall e rs ev, r_st rs = OFin ->
+  let rs' := run_ev e rs ev in
+  r_st rs' = OFin /\ r_roots rs' = r_roots rs /\ (r_tr rs' = r_tr rs \/ r_tr rs' = r_tr rs ++ [XSkip]).
+Proof.
+  intros e rs ev H. destruct ev as [id o|]; simpl.
+  - rewrite H, leafev_fin. simpl. auto.
+  - destruct (r_stopped rs); simpl; auto.
+    rewrite H, stop_fin. simpl. rewrite app_nil_r. auto.
+Qed.
+
+Lemma run_ev_RInv : forall e rs ev, RInv e rs -> RInv e (run_ev e rs ev).
+Proof.
+  intros e rs ev [(H0 & Hw)|(H1 & Hf)].
+  - destruct ev as [id o|]; simpl.
+    + pose proof (proj2 (proj2 (spec_all e)) _ id o Hw) as G.
+      destruct (leafev e (r_st rs) id o) as [r hit]. simpl in G.
+      destruct hit.
+      * apply absorb_RInv; assumption.
+      * left. simpl. auto.
+    + destruct (r_stopped rs).
+      * left. simpl. auto.
+      * apply absorb_RInv; [assumption|]. simpl. apply spec_all. exact Hw.
+  - destruct (run_ev_fin e rs ev Hf) as (A & B & _). right. rewrite A, B. auto.
+Qed.
+
+Lemma run_ev_TInv : forall e rs ev, TInv rs -> TInv (run_ev e rs ev).
+Proof.
+  intros e rs ev H. destruct ev as [id o|]; simpl.
+  - destruct (leafev e (r_st rs) id o) as [r hit]. destruct hit.
+    + apply absorb_TInv; assumption.
+    + unfold TInv in *; simpl. rewrite count_roots_app, H. unfold count_roots. simpl. lia.
+  - destruct (r_stopped rs).
+    + unfold TInv in *; simpl. rewrite count_roots_app, H. unfold count_roots. simpl. lia.
+    + apply absorb_TInv. exact H.
+Qed.
+
+Lemma run_ev_tr : forall e rs ev, exists suf, r_tr (run_ev e rs ev) = r_tr rs ++ suf.
+Proof.
+  intros e rs ev. destruct ev as [id o|]; simpl.
+  - destruct (leafev e (r_st rs) id o) as [r hit]. destruct hit.
+    + apply absorb_tr.
+    + simpl. eexists; reflexivity.
+  - destruct (r_stopped rs).
+    + simpl. eexists; reflexivity.
+    + apply (absorb_tr {| r_st := r_st rs; r_stopped := true; r_roots := r_roots rs; r_tr := r_tr rs |}).
+Qed.
+
+Lemma fold_RInv : forall e script rs, RInv e rs -> RInv e (fold_left (run_ev e) script rs).
+Proof. induction script as [|ev script IH]; simpl; intros rs H; [exact H|]. apply IH, run_ev_RInv, H. Qed.
+
+Lemma fold_TInv : forall e script rs, TInv rs -> TInv (fold_left (run_ev e) script rs).
+Proof. induction script as [|ev script IH]; simpl; intros rs H; [exact H|]. apply IH, run_ev_TInv, H. Qed.
+
+Lemma fold_tr : forall e script rs, exists suf, r_tr (fold_left (run_ev e) script rs) = r_tr rs ++ suf.
+Proof.
+  induction script as [|ev script IH]; simpl; intros rs.
+  - exists []. rewrite app_nil_r. reflexivity.
+  - destruct (IH (run_ev e rs ev)) as (s2 & E2). destruct (run_ev_tr e rs ev) as (s1 & E1).
+    exists (s1 ++ s2). rewrite E2, E1, app_assoc. reflexivity.
+Qed.
+
+Lemma fold_fin : forall e script rs, r_st rs = OFin ->
+  let rs' := fold_left (run_ev e) script rs in
+  r_st rs' = OFin /\ r_roots rs' = r_roots rs /\
+  exists n, (n <= length script)%nat /\ r_tr rs' = r_tr rs ++ repeat XSkip n.
+Proof.
+  induction script as [|ev script IH]; simpl; intros rs H.
+  - repeat split; auto. exists 0%nat. simpl. rewrite app_nil_r. auto.
+  - destruct (run_ev_fin e rs ev H) as (A & B & C).
+    destruct (IH _ A) as (A' & B' & n & Hn & E). repeat split; auto; try congruence.
+    destruct C as [C|C]; rewrite C in E.
+    + exists n. split; [lia|exact E].
+    + exists (S n). split; [lia|]. rewrite E, <- app_assoc. reflexivity.
+Qed.
+
+Lemma exec_inv : forall e pre script, RInv e (exec e pre script) /\ TInv (exec e pre script).
+Proof.
+  intros. unfold exec. split; [apply fold_RInv, run_start_RInv|apply fold_TInv, run_start_TInv].
+Qed.
+
+Lemma exec_app : forall e pre s1 s2, exec e pre (s1 ++ s2) = fold_left (run_ev e) s2 (exec e pre s1).
+Proof. intros. unfold exec. apply fold_left_app. Qed.
+
+(* at most one root completion, and the trace agrees with the counter *)
+Theorem C01_at_most_once : forall e pre script,
+  (r_roots (exec e pre script) <= 1)%nat /\
+  count_roots (r_tr (exec e pre script)) = r_roots (exec e pre script).
+Proof.
+  intros. destruct (exec_inv e pre script) as ([(H & _)|(H & _)] & T); split; try exact T; lia.
+Qed.
+
+(* the trace starts empty, start produces at most one root completion, later events only append
+   (so every XRoot was produced by start or by a later event, and none is ever retracted) *)
+Theorem C01_root_after_start : forall e pre,
+  (count_roots (r_tr (exec e pre [])) <= 1)%nat /\
+  (forall s1 s2, exists suf, r_tr (exec e pre (s1 ++ s2)) = r_tr (exec e pre s1) ++ suf) /\
+  (forall s1 s2, (r_roots (exec e pre s1) <= r_roots (exec e pre (s1 ++ s2)))%nat).
+Proof.
+  intros e pre. split; [|split].
+  - destruct (C01_at_most_once e pre []) as (A & B). lia.
+  - intros. rewrite exec_app. apply fold_tr.
+  - intros s1 s2.
+    destruct (C01_at_most_once e pre s1) as (_ & B1). destruct (C01_at_most_once e pre (s1 ++ s2)) as (_ & B2).
+    rewrite exec_app in *. destruct (fold_tr e s2 (exec e pre s1)) as (suf & E).
+    rewrite E, count_roots_app in B2. lia.
+Qed.
+
+(* no lost completion: as long as the root has not completed a started leaf is still running (so the
+   operation is waiting for something that can still happen); once it has, the state is OFin *)
+Theorem C01_no_lost : forall e pre script,
+  let rs := exec e pre script in
+  (r_roots rs = 0%nat -> wf e (r_st rs) /\ running_leaves e (r_st rs) <> []) /\
+  (r_roots rs = 1%nat -> r_st rs = OFin /\ running_leaves e (r_st rs) = []).
+Proof.
+  intros e pre script rs. destruct (exec_inv e pre script) as ([(H & W)|(H & F)] & _); fold rs in H, W || fold rs in H, F.
+  - split; intros H'; [|congruence]. split; [exact W|apply no_lost, W].
+  - split; intros H'; [congruence|]. split; [exact F|]. rewrite F. apply rl_fin.
+Qed.
+
+(* silent after completion: once the root completed, further events change nothing but XSkip marks *)
+Theorem C01_silent_after : forall e pre script script2,
+  r_roots (exec e pre script) = 1%nat ->
+  let rs' := exec e pre (script ++ script2) in
+  r_roots rs' = 1%nat /\ r_st rs' = OFin /\
+  exists n, (n <= length script2)%nat /\ r_tr rs' = r_tr (exec e pre script) ++ repeat XSkip n.
+Proof.
+  intros e pre script script2 H rs'. subst rs'. rewrite exec_app.
+  destruct (C01_no_lost e pre script) as (_ & F). destruct (F H) as (F' & _).
+  destruct (fold_fin e script2 _ F') as (A & B & C). repeat split; auto. congruence.
+Qed.
+
+(* a leaf event of the script applies iff that leaf is running (otherwise it is skipped and changes
+   nothing), and then the leaf is not running afterwards: with unique ids no leaf completes twice *)
+Lemma run_ev_leaf : forall e rs id o, RInv e rs ->
+  let rs' := run_ev e rs (EvLeaf id o) in
+  (In id (running_leaves e (r_st rs)) \/
+   r_tr rs' = r_tr rs ++ [XSkip] /\ r_st rs' = r_st rs /\ r_roots rs' = r_roots rs) /\
+  (NoDup (leaf_ids e) -> ~ In id (running_leaves e (r_st rs'))).
+Proof.
+  intros e rs id o [(H & W)|(H & F)]; simpl.
+  - pose proof (leafev_hit e (r_st rs) id o W) as Hit.
+    destruct (leafev e (r_st rs) id o) as [[[st' tr] r] hit] eqn:E. simpl in Hit. destruct hit.
+    + split; [left; apply Hit; reflexivity|].
+      intros ND. pose proof (leafev_hit_removes e _ id o st' tr r ND W E) as R.
+      destruct r; simpl; exact R.
+    + split; [right; simpl; auto|]. simpl. intros _ Hin. apply Hit in Hin. discriminate.
+  - rewrite F, leafev_fin. simpl. split; [right; auto|]. rewrite ?F, rl_fin. auto.
+Qed.
+
+Theorem C01_leaf_once : forall e pre script id o,
+  let rs := exec e pre script in
+  let rs' := exec e pre (script ++ [EvLeaf id o]) in
+  (In id (running_leaves e (r_st rs)) \/
+   r_tr rs' = r_tr rs ++ [XSkip] /\ r_st rs' = r_st rs /\ r_roots rs' = r_roots rs) /\
+  (NoDup (leaf_ids e) -> ~ In id (running_leaves e (r_st rs'))).
+Proof.
+  intros e pre script id o. cbv zeta. rewrite exec_app. simpl fold_left.
+  apply run_ev_leaf. apply exec_inv.
+Qed.
